@@ -62,6 +62,8 @@ func (o hOp) String() string {
 		return fmt.Sprintf("Set(%q, %v)", o.Key, vs[o.Val])
 	case "get":
 		return fmt.Sprintf("Get(%q)", o.Key)
+	case "size":
+		return "Size()"
 	}
 	return fmt.Sprintf("Get(%q).Set(%q, %v)", o.Key, o.In, vs[o.Val])
 }
@@ -77,7 +79,8 @@ func opsString(ops []hOp) string {
 	return strings.Join(s, "; ")
 }
 
-// hAlphabet: 15 Set + 3 Get + 9 nested Set = 27 operations.
+// hAlphabet: 15 Set + 3 Get + 9 nested Set + Size() = 28 operations. Size() in the middle of a history is an
+// observation that must not matter later (a cached size has to follow every later change, also one made through a child).
 func hAlphabet() []hOp {
 	var a []hOp
 	for _, k := range hKeys {
@@ -91,6 +94,7 @@ func hAlphabet() []hOp {
 	for _, k := range hKeys {
 		a = append(a, hOp{Op: "setin", Key: k, In: hInner[0], Val: 0}, hOp{Op: "setin", Key: k, In: hInner[0], Val: 1}, hOp{Op: "setin", Key: k, In: hInner[1], Val: 0})
 	}
+	a = append(a, hOp{Op: "size"})
 	return a
 }
 
@@ -507,6 +511,16 @@ func evalHistory(kind ref.Kind, st *hStart, ops []hOp) (*failure, hStatus) {
 			} else if !okSet {
 				f = fail("get", "%s: operation %d: Get(%q) returned a %T where the %v set under that key was expected", desc(), i+1, o.Key, got, child.Kind)
 			}
+		case "size":
+			sz, pm := amf0lib.Size(v)
+			if pm != "" {
+				f = fail("panic-size", "%s: operation %d (Size) panicked: %s", desc(), i+1, pm)
+			} else if !st.Weak {
+				want := len(encodeModel(nil, model, true))
+				if sz != want && !(ref.HasNonEmptyStrict(model) && sz == len(encodeModel(nil, model, false))) {
+					f = fail("size", "%s: operation %d: Size()=%d, the value tree %s encodes in exactly %d bytes", desc(), i+1, sz, modelString(model), want)
+				}
+			}
 		default:
 			panic("bad op " + o.Op)
 		}
@@ -596,6 +610,13 @@ func evalHistory(kind ref.Kind, st *hStart, ops []hOp) (*failure, hStatus) {
 }
 
 // opFeature classifies the operation after which a history first fails, against the model state before it.
+func max0(n int) int {
+	if n < 0 {
+		return 0
+	}
+	return n
+}
+
 func opFeature(kind ref.Kind, st *hStart, ops []hOp) string {
 	if len(ops) == 0 {
 		return "start"
@@ -632,6 +653,10 @@ func opFeature(kind ref.Kind, st *hStart, ops []hOp) string {
 				return "set-" + position(model, o.Key)
 			}
 			modelSet(model, o.Key, values[o.Val].Clone())
+		case "size":
+			if last {
+				return "size"
+			}
 		case "get":
 			if last {
 				if modelGet(model, o.Key) == nil {
@@ -691,6 +716,12 @@ func checkHistory(c *hl.Ctx, kind ref.Kind, si int, ops []hOp) {
 	}
 	ops, n = min, len(min)
 	feat := opFeature(kind, st, ops[:n])
+	for _, o := range ops[:max0(n-1)] {
+		if o.Op == "size" {
+			feat += "+after-Size()"
+			break
+		}
+	}
 	if kind != ref.Object {
 		if fo, s := evalHistory(ref.Object, st, ops[:n]); fo == nil && s != hSkipped {
 			feat += "@" + kind.String()
@@ -705,7 +736,7 @@ func checkHistory(c *hl.Ctx, kind ref.Kind, si int, ops []hOp) {
 }
 
 const historyRule = " Family history: ALL sequences of <= D operations over {Set(k,v): k in 3 keys (plain, empty, one a prefix of the other), v in {null, number, string, empty object, empty strict array}; " +
-	"Get(k); Get(k).Set(k2,v2) on a child container} (27 operations) applied to an Object, an EcmaArray and a StrictArray that was made with the constructor or obtained by decoding " +
+	"Get(k); Get(k).Set(k2,v2) on a child container} (28 operations with Size() itself as an operation in the middle of a history) applied to an Object, an EcmaArray and a StrictArray that was made with the constructor or obtained by decoding " +
 	"(empty, 1, 2, 3 distinct keys with a nested object, a repeated key); observed once at the end: Size()==len(MarshalBinary()), the bytes are exactly the encoding of the ordered-map value tree the history denotes " +
 	"(Set on a present key replaces the value where it stands, on an absent key appends; ECMA count hint not judged; strict arrays in the library's keyed or the specification's layout), " +
 	"they decode with Size()==len, read back through Get as that tree, re-marshal identically, and observing does not change them. " +
